@@ -926,7 +926,9 @@ func runDeterministic(c *core.Case) {
 				}
 				if exempt {
 					c.Count("rule_evals_exempt_after_reload", 1)
-					prevOut[pk] = setOf(res[k].out)
+					// what this evaluation really produced (and whether it hit the limit) is not
+					// known to the reference: no staleness requirement at its next evaluation
+					delete(prevOut, pk)
 					for s := range D {
 						if strings.HasPrefix(s, "{__name__=\""+ru.name+"\"") {
 							explained[fmt.Sprintf("%s|%d", s, ev.te)] = true
@@ -987,6 +989,14 @@ func runDeterministic(c *core.Case) {
 					cleanupFails = true
 				}
 			}
+			// the clean-up transaction also carries the series of removed instances whose last
+			// output the reference does not know (exempt evaluations): any injected commit error
+			// on a name that lost an instance may hit it
+			for name := range hazard[g.key()] {
+				if inj.commitErr[fmt.Sprintf("%s|%d", name, ev.te)] {
+					cleanupFails = true
+				}
+			}
 			if !cleanupFails {
 				for s := range pendingStale[g.key()] {
 					if len(claimed[s]) > 0 {
@@ -1001,8 +1011,10 @@ func runDeterministic(c *core.Case) {
 				}
 				delete(pendingStale, g.key())
 			}
-			delete(hazard, g.key())
 			if !cleanupFails {
+				// (while the clean-up is pending the removed instances' series stay live, so the
+				// exemption of their dependents stays as well)
+				delete(hazard, g.key())
 				delete(maybeStale, g.key())
 			}
 		}
